@@ -277,6 +277,10 @@ class WcMatch(Generic[AnyStr]):
                 if self.is_aborted():  # pragma: no cover
                     break
 
+            # Killed while the folders were validated, do not touch the files
+            if self.is_aborted():
+                break
+
             # Search files if they were found
             if files:
                 # Only search files that are in the include rules
